@@ -88,8 +88,11 @@ def main():
     ok, out = vlib.lake_build(targets)
     build_log_tail = ""
     if not ok:
-        failing = [l for l in out.splitlines() if "error" in l.lower()][:8]
-        broken.append("lake build failed: " + " | ".join(failing))
+        lines = out.splitlines()
+        failing = [l for l in lines if l.startswith("error:")][:8]
+        # the theorem a failing tactic belongs to: the first `'<name>' depends on axioms: [sorryAx …` after the error, or the nearest `theorem` line
+        named = [l.split("'")[1] for l in lines if "sorryAx" in l and "'" in l][:8]
+        broken.append("lake build failed" + (" (theorems that no longer check: %s)" % ", ".join(named) if named else "") + ": " + " | ".join(failing))
         build_log_tail = out[-4000:]
     n_thm = 0
     for m in mod.THEOREM_MODULES:
